@@ -41,6 +41,17 @@ def ladder_cases(full, kmax=3):
     from the world's five-point grid, ascending and descending"""
     from mc.props import c15
     dups = list(c15.dup_worlds()) + list(c15.shared_label_dup_worlds())
+    # the small base worlds with every ladder of two or three neighbouring peaks over the whole diagonal range (step 5, strides 1..3)
+    for name, ref, q in c15.base_worlds():
+        lo = -q[-1] // 2 // 5 * 5 - 10
+        grid = list(range(lo, ref[-1] + 10, 5))
+        for i0 in range(len(grid)):
+            for strides in ((1,), (2,), (3,), (1, 1), (1, 2), (2, 1)) if full else ((1,), (2,), (1, 1)):
+                idx = [i0]
+                for st in strides:
+                    idx.append(idx[-1] + st)
+                if idx[-1] < len(grid):
+                    yield 'base-' + name, ref, q, [grid[i] for i in idx]
     for name, ref, q, grid in list(c15.ladder_worlds(full)) + list(c15.collision_worlds()) + (dups if full else dups[::3]):
         for k in range(1, kmax + 1):
             for c in itertools.combinations(grid, k):
